@@ -27,6 +27,16 @@ func (h *hist) exec(op Op) {
 	g := h.gen(op)
 	skip := func(why string) { h.out.Probe("skipped:" + why) }
 	defer func() {
+		if r := recover(); r != nil {
+			u, ok := r.(undrivable)
+			if !ok {
+				panic(r)
+			}
+			h.out.Probe("skipped:undrivable")
+			if h.out.Trouble == "" {
+				h.out.Trouble = u.msg
+			}
+		}
 		if h.tx != nil && h.txErr && h.viol == nil {
 			h.end(false)
 		}
@@ -379,7 +389,7 @@ func (h *hist) byForeignKey(t *tinfo, g *gen, op Op, del bool) {
 	name := verb + t.Name + "sBy" + c.Field + "s"
 	f, ok := h.fn(name)
 	if !ok {
-		kernel.Harnessf("cannot drive program %s: the generated file has no function %s", h.prog.Name, name)
+		panic(undrivable{fmt.Sprintf("cannot drive program %s: the generated file has no function %s", h.prog.Name, name)})
 	}
 	target := h.byName[c.FK]
 	// keys: ids of some parents (referenced or not)
